@@ -27,6 +27,9 @@ LIB_RAISES = {
     "int": ("ValueError",),
     "float": ("ValueError",),
     "chr": ("ValueError", "OverflowError"),
+    "next": ("StopIteration",),  # next(it) without a default
+    "max": ("ValueError",),  # of a possibly empty iterable, without default=
+    "min": ("ValueError",),
     "json.loads": ("ValueError", "RecursionError"),
     "yaml.safe_load": ("yaml.YAMLError", "RecursionError"),
     "datetime.fromisoformat": ("ValueError",),
@@ -84,6 +87,12 @@ def _static_arg(call: ast.Call, fn: ast.AST) -> bool:
     constant table (ALL_CAPS name)"""
     if not call.args:
         return True
+    f = ast.unparse(call.func)
+    if f == "next":
+        return len(call.args) >= 2  # a default makes next() total
+    if f in ("max", "min"):
+        # total when a default is given or when there are two or more positional operands
+        return len(call.args) >= 2 or any(k.arg == "default" for k in call.keywords)
     a = call.args[0]
     if isinstance(a, ast.Constant):
         return True
